@@ -121,6 +121,7 @@ Init ==
   /\ sid = Sid(st, started, again, hb, tb)
   /\ c = 0
 
+MissKinds == {"valid", "nack", "other", "root", "twin"}
 Goal == st.bs.done = "B"
 Count(x) == IF Budgets THEN x + 1 ELSE x
 
@@ -138,6 +139,9 @@ Next ==
                   started, again, hb, tb)
      \/ \E h \in Hostile :
           /\ (~Budgets \/ hb < MaxHostile)
+          \* responses to requests that are not outstanding all take the same path (no matching
+          \* request): a representative subset of the kinds is enough for those
+          /\ (h[2].req \in st.out \/ h[1] \in MissKinds)
           /\ Step([op |-> "hostile", kind |-> h[1], rp |-> h[2], hit |-> (h[2].req \in st.out)],
                   Handle(st, h[2]), NoAns, started, again, Count(hb), tb)
      \/ /\ started /\ (~Budgets \/ (tb < MaxTimeouts /\ st.out # {}))
@@ -170,16 +174,24 @@ NoCorruption ==
      /\ \A i \in SliceIdx : st.bs.sh[i] \subseteq st'.bs.sh[i]
      /\ st.bs.done # "-" => st'.bs.done = st.bs.done
      /\ st.last # -1 => st'.last = st.last]_vars
+\* (action properties: `act` and `exp` are not part of the VIEW, so they are checked on transitions)
 \* a response that does not match an outstanding request changes nothing and sends nothing
 UnsolicitedIgnored ==
-  (act.op = "hostile" /\ ~act.hit) => (exp.wire = {} /\ exp.ev = <<>>)
-\* the good responder's answers verify against the block hash and are never NACKs for a held block
-GoodAnswersVerify == act.op = "good" => (exp.ans.ok /\ exp.ans.v # "nack")
+  [][(act'.op = "hostile" /\ ~act'.hit) => (st' = st /\ exp'.wire = {} /\ exp'.ev = <<>>)]_vars
+\* the good responder's answers verify against the block hash, are never NACKs for a held block,
+\* and are accepted: the answered request is no longer outstanding unless it was asked again
+GoodAnswersVerify ==
+  [][act'.op = "good" => (exp'.ans.ok /\ exp'.ans.v = act'.req.t
+                          /\ (act'.req \in st'.out => act'.req \in exp'.wire))]_vars
+\* an invalid response to an outstanding request leaves the requester exactly as it was
+InvalidChangesNothing ==
+  [][(act'.op = "hostile" /\ act'.hit /\ act'.kind \notin {"valid", "nack"})
+       => (st' = st /\ exp'.wire = {} /\ exp'.ev = <<>>)]_vars
 
 \* reachability witnesses (each must be violated)
 W_Stored == ~Goal
 W_StoredAfterHostileHit == ~(Goal /\ hb > 0)
-W_TwinHit == ~(act.op = "hostile" /\ act.kind = "twin" /\ act.hit)
+W_TwinHit == [][~(act'.op = "hostile" /\ act'.kind = "twin" /\ act'.hit)]_vars
 W_AllOutstandingAnswered == ~(Goal /\ st.out = {})
 
 ---------------------------------------------------------------------------
